@@ -438,7 +438,8 @@ def native_replay(cfg, rfile):
     rc, out, err, dt = run(cmd, timeout=900)
     if rc != 0:
         return "build-failed", (out + err)[-2000:]
-    rc, out, err, dt = run([exe, rfile], timeout=300, nolimit=True)   # ASan cannot reserve its shadow under RLIMIT_AS
+    env = dict(os.environ); env["ASAN_OPTIONS"] = "detect_leaks=0"; env["UBSAN_OPTIONS"] = "print_stacktrace=0"
+    rc, out, err, dt = run([exe, rfile], timeout=300, nolimit=True, env=env)   # ASan cannot reserve its shadow under RLIMIT_AS
     txt = (out + err)[-4000:]
     if "REPRODUCED" in out and "NOT-REPRODUCED" not in out:
         return "reproduced", txt
@@ -568,12 +569,19 @@ def run_and_report(prop, tier, targets, jobs, t0, extra_cov=None, extra_assumpti
             results.append((futs[f], f.result()))
     results.sort(key=lambda x: x[0]["id"])
     n_ob = 0; n_ok = 0; violations = []; known = []; samples = []; canaries = {"expected_fail": 0, "vacuous": []}
-    per_job = []; fuc = {}; trusted = set(); other_prop_failures = []; bounded = []
+    per_job = []; fuc = {}; trusted = set(); other_prop_failures = []; bounded = []; masked = []
     for job, r in results:
         if r["status"] != "done":
             undecided.append({"job": job["id"], "why": r["note"]}); log("UNDECIDED %s: %s" % (job["id"], r["note"])); continue
         jn = 0; jd = 0; has_canary = False
+        any_failure = any(o["status"] == "FAILURE" and o["class"] not in ("canary", "ignored") for o in r["obligations"])
         for ob in r["obligations"]:
+            if ob["status"] not in ("SUCCESS", "FAILURE") and ob["class"] not in ("canary",):
+                # CBMC reports UNKNOWN for obligations that follow a failed *fatal* one (e.g. an invalid dereference): undecided here,
+                # the failed obligation itself is what gets reported
+                if any_failure: masked.append({"job": job["id"], "obligation": ob["name"]})
+                else: undecided.append({"job": job["id"], "why": "obligation %s has status %s" % (ob["name"], ob["status"])})
+                continue
             if ob["class"] == "canary":
                 has_canary = True
                 if ob["status"] == "FAILURE": canaries["expected_fail"] += 1
@@ -657,7 +665,7 @@ def run_and_report(prop, tier, targets, jobs, t0, extra_cov=None, extra_assumpti
     cov = {"obligations": n_ob, "discharged": n_ok,
            "checker_cmd": "build/cxx2c (extraction from %s) ; goto-cc ; [goto-instrument --dfcc --enforce-contract ... --apply-loop-contracts] ; cbmc %s --unwind N --unwinding-assertions --json-ui" % (REPO, " ".join(DEFAULT_FLAGS)),
            "trusted_base": sorted(trusted), "samples": samples, "jobs": per_job, "functions_under_contract": fuc,
-           "canaries": canaries, "known_findings": known, "undecided": undecided, "bounded": bounded, "other_property_failures": other_prop_failures,
+           "canaries": canaries, "known_findings": known, "undecided": undecided, "bounded": bounded, "other_property_failures": other_prop_failures, "masked_by_fatal_failure": masked,
            "extraction_dropped": EXTRACTION_DROPPED, "extraction_s": ext_s, "repo_tree_hash": repo_tree_hash(), "violations_detail": vio_out,
            "explanation": "every obligation is a CBMC property generated from C code that cxx2c extracted from /repo's working tree in this run; 'discharged' counts those with status SUCCESS"}
     if extra_cov: cov.update(extra_cov)
